@@ -508,7 +508,8 @@ def dict_shape(ctx):
     # list handler: result is a new list, items appended in order
     lu = ctx.unit('core._handle_list')
     lrets = [n for n in lu.own_nodes() if isinstance(n, ast.Return)]
-    ctx.require(len(lrets) == 1 and isinstance(lrets[0].value, ast.Name), '_handle_list: return not found')
+    ctx.require(len(lrets) >= 1 and all(isinstance(r.value, ast.Name) for r in lrets) and len({r.value.id for r in lrets}) == 1,
+                '_handle_list: return not found')
     lret = lrets[0].value.id
     ldefs = [n for n in lu.own_nodes() if isinstance(n, ast.Assign) and any(is_name(t, lret) for t in n.targets)]
     ctx.ob(len(ldefs) == 1 and isinstance(ldefs[0].value, ast.List) and not ldefs[0].value.elts, lu,
